@@ -399,7 +399,7 @@ class Compose(Linop):
     def _apply(self, input):
         output = input
         for linop in self.linops[::-1]:
-            output = linop(output)
+            output = linop.apply(output)
 
         return output
 
